@@ -119,7 +119,7 @@ theorem evaluate_litExpr (re : RegexOracle) (s t tag : GoString) (hook : Hook)
   rcases hh with rfl | rfl | rfl <;>
   simp [Eval.evaluate, litExpr, datumIface, datumStr, evaluateMatch, getValue, resolveLocals,
     Go.get, getLoop, getStep, unwrapForStep, unwrapIfaceV, unwrapPtrV, valueOf, getMap,
-    coerceKey, GoType.stringT, fkeyEq, keyEq, keyEqScalar, unboxKey, getStep.applyHook,
+    coerceKey, GoType.stringT, fkeyEq, keyEq, keyEqScalar, keyEqV, unboxKey, getStep.applyHook,
     Opts.cfg, GoVal.toAny, Hook.apply, stripIP, narrowJsonNumber, indirect,
     Props.C02.eq_string_spec]
 
